@@ -16,7 +16,7 @@ ID = "C20"
 READY = True
 LEVEL = "exploration"
 WORKERS = {"quick": 8, "thorough": 16}
-BUDGET = {"quick": 60, "thorough": 420}
+BUDGET = {"quick": 150, "thorough": 420}
 MIN_NONTRIVIAL = {"quick": 1000, "thorough": 20000}
 REQUIRED_HOOKS = ["main", "null-input", "boolean", "syntax-error", "stream", "subprocess"]
 RULE = (
